@@ -48,6 +48,8 @@ inductive Op where
   | moveCtor (b : Path)                            -- new root, moved from node b
   | copyAssign (a b : Path)
   | moveAssign (a b : Path)
+  | sortBy (a : Path) (k : Nat)                    -- `sort(Predicate)` with the k-th predicate of `predOf`
+  | mkFrom (b : Path) (v : Int)                    -- new root `object(v, child_list(b.children()))`
   deriving Repr, DecidableEq, Inhabited
 
 /-- `b` is `a` or an ancestor of `a` -/
@@ -63,6 +65,13 @@ def Op.guard : Op → Bool
   | .swap a b => a == b || (!isPrefix a b && !isPrefix b a)
   | .moveAssign a b => a == b || !isPrefix b a
   | _ => true
+
+/-- the predicates handed to `sort(Predicate)` by the harness (0 is the one `sort()` uses itself) -/
+def predOf : Nat → Int → Int → Bool
+  | 0, a, b => decide (a < b)
+  | 1, a, b => decide (b < a)                      -- std::greater
+  | 2, a, b => decide (a % 3 < b % 3)              -- many ties: stability is visible (`%` = mathematical mod here)
+  | _, a, b => decide (a.natAbs < b.natAbs)
 
 inductive RT where
   | node (val : Int) (kids : List RT)
@@ -138,6 +147,17 @@ def childPos (p c : Path) : Option Nat :=
 
 def sortKids (ks : List RT) : List RT := ks.mergeSort (fun x y => decide (x.val ≤ y.val))
 
+/-- stable sort by a strict predicate on the values: `x` may stay in front of `y` unless `y < x` -/
+def sortKidsBy (lt : Int → Int → Bool) (ks : List RT) : List RT := ks.mergeSort (fun x y => !lt y.val x.val)
+
+/-- `front()` / `back()`: the first / last child if there is one -/
+def front (t : RT) : Option RT := t.kids.head?
+def back (t : RT) : Option RT := t.kids.getLast?
+
+/-- the printed form (`output.hpp`): one line per node in pre-order, `(indentation, value)` -/
+def lines (d : Nat) : RT → List (Nat × Int)
+  | node v ks => (d, v) :: (ks.map (lines (d + 1))).flatten
+
 /-- the operations on forests of rose trees; `none` = a precondition of the C++ call is violated -/
 def step (F : List RT) : Op → Option (List RT)
   | .new v => some (F ++ [node v []])
@@ -205,6 +225,12 @@ def step (F : List RT) : Op → Option (List RT)
       let F2 := putF (node tb1.val []) b F1
       let ta2 ← getF a F2
       some (putF (node ta2.val tb1.kids) a F2)
+  | .sortBy a k => do
+      let t ← getF a F
+      some (putF (node t.val (sortKidsBy (predOf k) t.kids)) a F)
+  | .mkFrom b v => do
+      let t ← getF b F
+      some (F ++ [node v t.kids])
 
 end RT
 end Fcppt.C09
